@@ -309,12 +309,20 @@ def _traces(names):
     def f(ck, tier):
         import scen
         import tracecheck
-        common_names = names if names else list(scen.SCEN)
-        tracecheck.check_traces(ck, ck.pid, names=common_names)
+        common_names = list(names) if names else list(scen.SCEN)
+        # generated scenarios (random pre-state, options and inputs), of the kinds the property is about
+        kinds = RAND_KINDS_BY_PID.get(ck.pid, scen.RAND_KINDS)
+        per = 1 if tier == 'quick' else 12
+        gen = [n for n in tracecheck.random_names(ck.rng, per) if n.split('_')[1] in kinds]
+        ck.cov['generated_scenarios'] = len(gen)
+        tracecheck.check_traces(ck, ck.pid, names=common_names + gen)
     return f
 
 
 import tracecheck  # noqa: E402
+
+RAND_KINDS_BY_PID = {'C09': ['add', 'topack', 'import'], 'C10': ['pack', 'repack'], 'C11': ['delete', 'repack'], 'C13': ['add', 'pack', 'clean', 'topack', 'import'],
+                     'C14': ['import'], 'C01': ['add', 'topack', 'pack']}
 
 def _pages(ck, tier):
     import c16
